@@ -97,6 +97,39 @@ def _specs() -> Dict[str, Dict[str, Any]]:
                             "recompute_on_restored_graph", "save_acknowledged"],
         "precondition_probe": "restore_checked",
     }
+    from .profiles import callgraph
+    cg_rule = ("one evaluation = one simulated run: a generated world (1-3 ranks, one or several host threads, autograd thread "
+               "with / without backward annotations, all launch patterns, operators with up to 300 kernels, more than 127 events) "
+               "and 1-2 sessions each issuing a history of 2-7 calls: CallGraph(trace, ranks) for one / all ranks, "
+               "get_frequent_cuda_kernel_sequences with seeded operator names / min_pattern_len / top_k, "
+               "get_gpu_kernels_with_user_annotations, decode_symbol_ids, other getters as noise. After every build the eight "
+               "stack columns of the shared frame are checked against the tree (parent of linked device activities, depth, "
+               "height, kernel aggregates, backward-thread linking) and against the first build of the same session. "
+               "distinct_nontrivial = distinct event-log digests among runs with at least one checked build")
+    cg_assume = GENERATOR_ASSUMPTIONS + [
+        "the parent of a host event is taken from the tool (that is C03's subject); worlds contain no zero-duration events, for which C03 is known to be wrong on the pinned tree",
+        "sync events on stream -1 are left out of the device-parent clause",
+    ]
+    specs["C13"] = {
+        "id": "C13", "stream": "callgraph", "profile": callgraph, "props": ["C13"], "level": "exploration",
+        "batches": [{"name": "histories", "args": {}, "runs": {"quick": 220, "thorough": 5000}},
+                    {"name": "big", "args": {"big": True}, "runs": {"quick": 12, "thorough": 200}}],
+        "rule": cg_rule, "assumptions": cg_assume,
+        "expected_probes": ["second_build", "build_after_another_ranks_build", "more_than_127_events",
+                            "more_than_127_kernels_under_one_operator", "backward_linking_checked",
+                            "linked_device_rows_checked"],
+    }
+    specs["C16"] = {
+        "id": "C16", "stream": "callgraph", "profile": callgraph, "props": ["C16"], "level": "exploration",
+        "batches": [{"name": "histories", "args": {}, "runs": {"quick": 220, "thorough": 5000}},
+                    {"name": "big", "args": {"big": True}, "runs": {"quick": 12, "thorough": 200}},
+                    {"name": "faults", "args": {"faulty": True}, "runs": {"quick": 60, "thorough": 1000}}],
+        "rule": cg_rule + "; C16: the returned pattern table (patterns, counts, CPU / GPU durations, row order) is recomputed from the tool's own tree for the same arguments, and the n-th call must equal the first call with the same arguments; fault batch: ENOSPC / EIO inside the write of the overlay file",
+        "assumptions": cg_assume + ["operator names are chosen so that they match host operator names only",
+                                    "runs in which two kernels of one operator start at the same instant under different names are skipped (either order is allowed)"],
+        "expected_probes": ["patterns_found", "repeated_call_same_arguments", "second_build",
+                            "more_than_127_kernels_under_one_operator"],
+    }
     return specs
 
 
